@@ -27,11 +27,12 @@ fails=$(grep -c '^FAIL\|^--- FAIL' $log)
 suite_fail=$(grep '^--- FAIL' $log | grep -v 'TestSeed\|TestUT ' | head -5)
 cd /; git -C /repo worktree remove --force $wt
 python3 - <<PY
-import json
-json.dump({"id":"$id","property":"$prop","demo_package":"$pkgdir",
+import json, os
+_old = json.load(open("$d/meta.json")) if os.path.exists("$d/meta.json") else {}
+_old.update({"id":"$id","property":"$prop","demo_package":"$pkgdir",
  "confirmed":{"demo_passes_without_change":$r1==0,"patch_applies":$ra==0,"builds_with_change":$r2==0,"demo_fails_with_change":$r3!=0,
  "existing_suite_failures_other_than_TestUT_submodule":"""$suite_fail"""},
- "what_was_run":"lib/seedconfirm.sh: fresh worktree of /repo HEAD; demo test alone; git apply patch.diff; go build ./...; demo test again; go test -count=1 -vet=off ./... (demo removed). pkg/vm TestUT fails on the unmodified tree too (neo-vm submodule not checked out offline)."},
- open("$d/meta.json","w"),indent=1)
+ "what_was_run":"lib/seedconfirm.sh: fresh worktree of /repo HEAD; demo test alone; git apply patch.diff; go build ./...; demo test again; go test -count=1 -vet=off ./... (demo removed). pkg/vm TestUT fails on the unmodified tree too (neo-vm submodule not checked out offline)."})
+json.dump(_old, open("$d/meta.json","w"),indent=1)
 PY
 echo "confirmed $id: demo_without=$r1 apply=$ra build=$r2 demo_with=$r3 suite_fail=[$suite_fail]"
